@@ -22,5 +22,8 @@ def run(ctx) -> None:
     decode.rule_S2(ctx, "U4")
     ctx.rules_run.append("U7")
     decode.rule_S1(ctx, "U7")      # an unknown field at the end of a sized message does not make the reader run into what follows
+    ctx.rules_run.append("U8")
+    from . import varint
+    varint.rule_N7(ctx, "U8")      # the raw bytes kept for an unknown field are all the bytes that were read for it (tag included)
     ctx.rules_run.append("U6")
     decode.rule_M2b(ctx, "U6")     # any field number of a newer schema (1 .. 2**29-1) is readable
